@@ -188,6 +188,17 @@ check("C20", "TLC: calendar / EU daylight-saving arithmetic of GermanTime.tla ch
       "DESIGN 9.1 says, for this property the spec is an independent oracle plus generator for a pure function rather than a concurrency model.",
       "DESIGN.md 3.12, 5/C20")
 
+check("C19", "TLC model checking of Codec.tla on the field table extracted from the real marshmallow schemas (producer domain within loader domain) + JSON "
+      "round trips of every object the real code produces along behaviours enumerated by AhbSplit.tla, AhbEval.tla and Keys.tla",
+      "TLC decides on the extracted null/required/default table whether every record ahbicht can produce (nullable fields per the evaluator specs) survives "
+      "dump+load; each verdict is reproduced on the real schema, which also validates the small model. The real parsers/resolver/evaluators are run "
+      "on every accepted expression <=5 (6) tokens, every part list <=2 (3) parts with every outcome incl. undetermined, every operand sequence <=3: "
+      "trees (with packages, repeatabilities, time conditions), key extracts (sanitized and raw), content evaluation results (with None/packages/id "
+      "variants), evaluated format constraints and AHB/requirement/format results must be equal after dump -> json -> load, and round-tripped trees "
+      "must evaluate like the originals.",
+      "Trusted: TLC; marshmallow is observed, not specified, beyond the null/required/default rules - for this property the specification mainly "
+      "supplies the producible domain (DESIGN 9.1, 9.4).", "DESIGN.md 3.13, 5/C19")
+
 NOT_BUILT = "check under construction in this session (specification module planned in DESIGN.md section 3); not claimed yet"
 
 
